@@ -719,7 +719,7 @@ func init() {
 		prefixStep:   map[string]int{"quick": 7, "thorough": 2},
 		tokStep:      map[string]int{"quick": 9, "thorough": 3},
 	}
-	Register(&Composite{id: "C12", meta: c12stream.meta, Parts: []Prop{c12stream, c12items{}, c12reftok{}}, Names: []string{"stream", "object-items", "reference-tokens"}})
+	Register(&Composite{id: "C12", meta: c12stream.meta, Parts: []Prop{c12stream, c12items{}, c12reftok{}, crlfTwinPart{}}, Names: []string{"stream", "object-items", "reference-tokens", "line-endings"}})
 	c13stream := &StreamProp{
 		id: "C13",
 		meta: Meta{Level: "exploration",
@@ -734,7 +734,7 @@ func init() {
 		prefixStep:   map[string]int{"quick": 3, "thorough": 1},
 		tokStep:      map[string]int{"quick": 3, "thorough": 1},
 	}
-	Register(&Composite{id: "C13", meta: c13stream.meta, Parts: []Prop{c13stream, c13cond{}, c12items{tokens: true}}, Names: []string{"stream", "conditional-branches", "object-items"}})
+	Register(&Composite{id: "C13", meta: c13stream.meta, Parts: []Prop{c13stream, c13cond{}, c12items{tokens: true}, crlfTwinPart{tokens: true}}, Names: []string{"stream", "conditional-branches", "object-items", "line-endings"}})
 	Register(&StreamProp{
 		id: "C02",
 		meta: Meta{
